@@ -1,4 +1,5 @@
 import UtilModel.Broadcast.Lock
+import UtilModel.Broadcast.Transfer
 open UtilModel UtilModel.Broadcast
 #print axioms UtilModel.accepts_sound
 #print axioms UtilModel.monitor_of_simulation
@@ -21,3 +22,5 @@ open UtilModel UtilModel.Broadcast
 #print axioms UtilModel.Broadcast.C03_excl_obs
 #print axioms UtilModel.Broadcast.C03_obs_l
 #print axioms UtilModel.Broadcast.body_exclusive
+#print axioms UtilModel.C03_accepted
+#print axioms UtilModel.acceptsH_sound
